@@ -197,7 +197,7 @@ class HistGen:
             return self.do('addb %s %s [%s] %s' % (h, id, ','.join(bs), d))
         if kind == 'del':
             s = self.fresh_tok() if (bad or not names) else rng.choice(names)
-            return self.do('del %s %s' % (h, s))
+            return self.do('%s %s %s' % (rng.choice(['del', 'del', 'delitem']), h, s))
         if kind == 'delb':
             bs = self.some(pts, rng.randrange(1, 4)) if pts else []
             return self.do('delb %s [%s]' % (h, ','.join(bs)))
